@@ -204,6 +204,15 @@ impl Drop for Dropper {
     }
 }
 
+/// A zero-sized type with a destructor (a token / guard): no memory, but its value must still be dropped
+/// exactly once.
+pub struct ZDropper;
+impl Drop for ZDropper {
+    fn drop(&mut self) {
+        DROPS.fetch_add(1, Ordering::SeqCst);
+    }
+}
+
 #[derive(Clone, Copy)]
 #[repr(C)]
 pub struct A1<const N: usize>(pub [u8; N]);
@@ -251,10 +260,11 @@ macro_rules! for_each_type {
         $m!(13, ());
         $m!(14, $crate::arena::Z8);
         $m!(15, $crate::arena::Dropper);
+        $m!(16, $crate::arena::ZDropper);
     };
 }
 
-pub const N_TYPES: usize = 16;
+pub const N_TYPES: usize = 17;
 pub const TY_DROPPER: u8 = 15;
 
 pub fn ty_info(i: u8) -> TyInfo {
@@ -373,6 +383,12 @@ impl<const N: usize> MenuType for A8<N> {}
 impl<const N: usize> MenuType for A16<N> {}
 impl MenuType for () {}
 impl MenuType for Z8 {}
+impl MenuType for ZDropper {
+    const DROPPER: bool = true;
+    fn make(_tag: u64) -> Option<Self> {
+        Some(ZDropper)
+    }
+}
 impl MenuType for Dropper {
     const DROPPER: bool = true;
     fn make(tag: u64) -> Option<Self> {
@@ -470,9 +486,27 @@ pub fn create<A: VArena>(cfg: &Cfg) -> Result<A, String> {
             if cfg.file_offset > 0 {
                 o = o.with_offset(cfg.file_offset);
             }
-            unsafe { o.map_mut::<A, _>(p) }.map_err(|e| format!("io:{:?}:{}", e.kind(), e))
+            if use_path_builder() {
+                let pb = std::path::PathBuf::from(p);
+                unsafe { o.map_mut_with_path_builder::<A, _, std::io::Error>(move || Ok(pb)) }.map_err(|e| e.either(|l| l, |r| r)).map_err(|e| format!("io:{:?}:{}", e.kind(), e))
+            } else {
+                unsafe { o.map_mut::<A, _>(p) }.map_err(|e| format!("io:{:?}:{}", e.kind(), e))
+            }
         }
     }
+}
+
+thread_local! {
+    static OPEN_NO: std::cell::Cell<u64> = const { std::cell::Cell::new(0) };
+}
+
+/// Every second file open of this process goes through the `*_with_path_builder` form of the constructor.
+fn use_path_builder() -> bool {
+    OPEN_NO.with(|c| {
+        let v = c.get();
+        c.set(v + 1);
+        v % 2 == 1
+    })
 }
 
 /// Reopen an existing arena file.
@@ -492,20 +526,36 @@ pub fn reopen<A: VArena>(cfg: &Cfg, mode: OpenMode, cap: Option<u32>, create_fla
     if cfg.file_offset > 0 {
         o = o.with_offset(cfg.file_offset);
     }
+    let pb = if use_path_builder() { Some(std::path::PathBuf::from(p)) } else { None };
+    fn flat<T>(r: Result<T, rarena_allocator::either::Either<std::io::Error, std::io::Error>>) -> std::io::Result<T> {
+        r.map_err(|e| e.either(|l| l, |r| r))
+    }
     match mode {
         OpenMode::MapMut => {
             o = o.with_write(true);
             if create_flag {
                 o = o.with_create(true);
             }
-            unsafe { o.map_mut::<A, _>(p) }
+            match pb {
+                Some(pb) => flat(unsafe { o.map_mut_with_path_builder::<A, _, std::io::Error>(move || Ok(pb)) }),
+                None => unsafe { o.map_mut::<A, _>(p) },
+            }
         }
         OpenMode::MapCopy => {
             o = o.with_write(true);
-            unsafe { o.map_copy::<A, _>(p) }
+            match pb {
+                Some(pb) => flat(unsafe { o.map_copy_with_path_builder::<A, _, std::io::Error>(move || Ok(pb)) }),
+                None => unsafe { o.map_copy::<A, _>(p) },
+            }
         }
-        OpenMode::Map => unsafe { o.map::<A, _>(p) },
-        OpenMode::MapCopyRo => unsafe { o.map_copy_read_only::<A, _>(p) },
+        OpenMode::Map => match pb {
+            Some(pb) => flat(unsafe { o.map_with_path_builder::<A, _, std::io::Error>(move || Ok(pb)) }),
+            None => unsafe { o.map::<A, _>(p) },
+        },
+        OpenMode::MapCopyRo => match pb {
+            Some(pb) => flat(unsafe { o.map_copy_read_only_with_path_builder::<A, _, std::io::Error>(move || Ok(pb)) }),
+            None => unsafe { o.map_copy_read_only::<A, _>(p) },
+        },
     }
 }
 
